@@ -3,7 +3,7 @@
 From Coq Require Import List Bool ZArith NArith.
 From SR Require Import Model.Subseq Proofs.SubseqProofs.
 Import ListNotations.
-Open Scope Z_scope.
+Local Open Scope Z_scope.
 
 (* For every non-empty child mask, the segment distance is -1 when the child is
    not contained in the parent and otherwise the number of maximal runs of parent
